@@ -32,7 +32,9 @@ fn asm(isa: &Isa, name: &str, f: Fields) -> Vec<u8> {
 
 /// shape: 1 counted loop, 2 nested loop, 3 call in loop, 4 port write in loop, 5 console write around a loop,
 ///        6 timer with overflow handler, 0 straight line.
-/// fail: 0 none, 1 unimplemented opcode first, 2 unmapped store after the loop, 3 unimplemented opcode last
+/// fail: 0 none, 1 unimplemented opcode first, 2 unmapped store after the loop, 3 unimplemented opcode last but one,
+///       4 / 5 / 6 a failing instruction whose last word ends exactly at the exit address (NOP; the 4-byte
+///       LDC.W @ER0,CCR; a 6-byte store to an unmapped address), so that PC == exit address when it fails
 pub fn build(isa: &Isa, shape: usize, n: u32, fail: usize) -> Prog {
     let mut c: Vec<u8> = Vec::new();
     let f = |rd: u8, rs: u8, data: u32| Fields { rd, rs, data, ..Default::default() };
@@ -132,6 +134,12 @@ pub fn build(isa: &Isa, shape: usize, n: u32, fail: usize) -> Prog {
         c.extend(&nop_unimpl);
     }
     c.extend(asm(isa, "ADDS #1,ERd", f(3, 0, 0)));
+    match fail {
+        4 => c.extend(&nop_unimpl),
+        5 => c.extend(&[0x01u8, 0x40, 0x69, 0x00]),
+        6 => c.extend(asm(isa, "MOV.B Rs,@aa:24", Fields { rs: 8, data: 0x200000, ..Default::default() })),
+        _ => {}
+    }
     let exit_addr = CODE + c.len() as u32;
     c.extend(asm(isa, "Bcc d:8", Fields { cc: 0, data: 0xfe, ..Default::default() }));
     if shape == 6 {
@@ -449,11 +457,11 @@ fn c13_units(tier: Tier) -> Vec<Unit> {
     units.push(Unit::new(
         "failing-instruction",
         1,
-        "every guest shape 0-6 x failing instruction at {first, after the loop (unmapped store), last (unimplemented opcode)} x loop counts {1, 50}: run() must return exactly that instruction's error, charge nothing for it and execute nothing after it; plus the fault-free straight-line program",
+        "every guest shape 0-6 x failing instruction at {first, after the loop (unmapped store), near the end (unimplemented opcode), directly in front of the exit address so that PC equals the exit address when it fails (2-byte and 4-byte unimplemented opcodes, 6-byte unmapped store)} x loop counts {1, 50}: run() must return exactly that instruction's error, charge nothing for it and execute nothing after it; plus the fault-free straight-line program",
         move |ctx, _| {
             let mut pair = Pair::new();
             for shape in 0..=6usize {
-                for fail in 0..=3usize {
+                for fail in 0..=6usize {
                     for n in [1u32, 50] {
                         let p = build(&ctx.isa, shape, n, fail);
                         let (o, v) = run_checked(&mut pair, &p, 5_000_000);
